@@ -27,7 +27,7 @@ def c05_inv(w):
     n = w.wrapper_id
     d = w.wrapper_map
     return (n >= 0
-            and forall(lambda k: implies(k >= n, k not in d and siteCount[k] == 0))
+            and forall(lambda k: implies(k >= n or k < 0, k not in d and siteCount[k] == 0))
             and (n == 0 or (n - 1) in d)
             and forall(0, n, lambda v: siteCount[v] == 1 and c05_consistent(d, v, siteRole[v])))
 
